@@ -163,3 +163,14 @@ Theorem C04_thread_mesh_exact {T} `{Num T} : forall (d_min d_maj pitch length : 
   forall u v, (mcnt u v (triples (snd (thread_mesh d_min d_maj pitch length segments li lo left)) 0) <= 1)%nat /\
               mcnt u v (triples (snd (thread_mesh d_min d_maj pitch length segments li lo left)) 0) = mcnt v u (triples (snd (thread_mesh d_min d_maj pitch length segments li lo left)) 0).
 Proof. exact (@thread_mesh_exact T H). Qed.
+
+(* ---- outward, rotate_extrude: a clockwise profile (negative shoelace area) strictly right of the axis (x >= xmin > 0),
+        completely triangulated, revolved by any angle in (0, 360] with any segment count: vol6 < 0, i.e. the faces wind
+        clockwise seen from outside and enclose positive volume. (vol6 = segments sin(degrees/segments) moment(profile),
+        Props/C05.v; the caps lie in planes through the axis and enclose nothing with it.) ---- *)
+From SCAD Require Import Geom.Revolve_volume.
+Theorem C04_rotate_extrude_outward : forall (profile : list (pt2 R)) (degrees : R) (segments : Z) ph (xmin : R),
+  rotate_extrude profile degrees segments = Some ph -> (0 < degrees)%R ->
+  complete (enumerate profile) -> Forall (fun p => (xmin <= x2 p)%R) profile -> (0 < xmin)%R -> (Poly.area2 profile < 0)%R ->
+  (vol6 (fst ph) (snd ph) < 0)%R.
+Proof. exact rotate_extrude_outward. Qed.
